@@ -2,10 +2,14 @@
    case = [1, okeys, ovf, nkeys, fields]     journal_table (sorts) + the specification
         | [2, okeys, nkeys, fields]          journal_core with identity sort indices (kernel pipeline)
         | [3, old, new]                      ordered_generate_journalling_indices alone
+        | [4, w, cs, scs, okeys, ovf, nkeys, fields]
+                                             journal_table executed with ops.DEFAULT_CHUNKSIZE = cs and field chunk size
+                                             scs; w = 0: integer keys, w >= 2: keys are byte strings of an S<w> column
+                                             (ordered through JournalKeys.key_enc) + the specification
    fields = list of [0, old numeric column, new numeric column] | [1, old strings, new strings]
    answer = [model columns, spec columns]; a column is [0, data] or [1, offsets, bytes]. *)
 From Coq Require Import ZArith List Bool.
-From EV Require Import Res Arr Val Journal JournalSpec.
+From EV Require Import Res Arr Val Journal JournalSpec JournalKeys.
 Import ListNotations.
 Open Scope Z_scope.
 
@@ -37,6 +41,10 @@ Definition enc_col (c:col) : val :=
   end.
 Definition enc_cols (l:list col) : val := VL (map enc_col l).
 
+(* a key cell of an S<w> column: at most w bytes *)
+Definition key_cell_ok (w:nat) (bs:list Z) : bool :=
+  (Nat.leb (length bs) w) && forallb (fun b => (0 <=? b) && (b <? 256)) bs.
+
 Definition entry_C17 (v:val) : val :=
   match v with
   | VL [VZ 1; okeys; ovf; nkeys; fields] =>
@@ -55,6 +63,26 @@ Definition entry_C17 (v:val) : val :=
           enc_cols (journal_spec okeys (repeat 0 (length okeys)) nkeys fields)]
     | _, _, _ => vbad
     end
+  | VL [VZ 4; VZ w; VZ cs; VZ scs; okeys; ovf; nkeys; fields] =>
+    if w =? 0 then
+      match as_list okeys, as_list ovf, as_list nkeys, dec_fields fields with
+      | Some okeys, Some ovf, Some nkeys, Some fields =>
+        if negb (len okeys =? len ovf) then vbad else
+        VL [of_res enc_cols (journal_table_sized cs scs (journal_fuel okeys nkeys) okeys ovf nkeys fields);
+            enc_cols (journal_spec okeys ovf nkeys fields)]
+      | _, _, _, _ => vbad
+      end
+    else
+      match as_list2 okeys, as_list ovf, as_list2 nkeys, dec_fields fields with
+      | Some okeys, Some ovf, Some nkeys, Some fields =>
+        let wn := Z.to_nat w in
+        if negb (len okeys =? len ovf) || negb (forallb (key_cell_ok wn) (okeys ++ nkeys)) then vbad else
+        let ok := map (key_enc wn) okeys in
+        let nk := map (key_enc wn) nkeys in
+        VL [of_res enc_cols (journal_table_bytes wn cs scs (journal_fuel ok nk) okeys ovf nkeys fields);
+            enc_cols (journal_spec ok ovf nk fields)]
+      | _, _, _, _ => vbad
+      end
   | VL [VZ 3; old; new] =>
     match as_list old, as_list new with
     | Some old, Some new =>
